@@ -387,9 +387,44 @@ pub fn install_panic_hook() {
         } else {
             "<non-string panic>".to_string()
         };
-        let loc = info.location().map(|l| format!("{}:{}", l.file(), l.line())).unwrap_or_default();
+        let mut loc = info.location().map(|l| format!("{}:{}", l.file(), l.line())).unwrap_or_default();
+        // the signature names the cc6502 function containing the panic site (stable when
+        // unrelated lines move; distinguishes two unwrap()s of one file)
+        let bt = std::backtrace::Backtrace::force_capture().to_string();
+        if let Some(f) = first_cc6502_frame(&bt) {
+            loc = format!("{}@{}", f, loc);
+        }
         LAST_PANIC.with(|p| *p.borrow_mut() = Some((msg, loc)));
     }));
+}
+
+fn first_cc6502_frame(bt: &str) -> Option<String> {
+    for line in bt.lines() {
+        let t = line.trim();
+        // lines look like "12: cc6502::compile::parse_int" or "12: <cc6502::...>::method"
+        if let Some(i) = t.find("cc6502::") {
+            if t.contains(" at ") && !t.contains(": ") {
+                continue;
+            }
+            let mut name: String = t[i..].to_string();
+            // strip closure markers and generic noise
+            if let Some(j) = name.find("::{{closure}}") {
+                name.truncate(j);
+            }
+            if let Some(j) = name.find("::h") {
+                // trailing hash
+                if name[j + 3..].chars().all(|c| c.is_ascii_hexdigit()) {
+                    name.truncate(j);
+                }
+            }
+            name = name.trim_end_matches('>').to_string();
+            if name.starts_with("cc6502::tests") {
+                continue;
+            }
+            return Some(name);
+        }
+    }
+    None
 }
 
 fn file_of(loc: &str) -> String {
@@ -457,7 +492,10 @@ pub fn compile_bytes(src: &[u8], opts: &Opts) -> Outcome {
         Err(_) => {
             let (message, location) =
                 LAST_PANIC.with(|p| p.borrow_mut().take()).unwrap_or(("<unknown>".into(), "".into()));
-            let sig = format!("{}|{}", file_of(&location), normalise_msg(&message));
+            let sig = match location.split_once('@') {
+                Some((func, _)) => format!("{}|{}", func, normalise_msg(&message)),
+                None => format!("{}|{}", file_of(&location), normalise_msg(&message)),
+            };
             Outcome::Panic(PanicSig { message, location, sig })
         }
     }
